@@ -612,6 +612,21 @@ func ownValues(tier string, rnd *rand.Rand) []starlark.Value {
 		}
 		return starlark.MakeInt(i)
 	})))
+	// a host object that reaches itself through a container it holds, followed by shared values
+	for _, after := range []int{1, 2, 3} {
+		l := starlark.NewList(nil)
+		h := &hObj{mod: "m", name: "cyc", args: starlark.Tuple{l}}
+		l.Append(h)
+		shared := starlark.NewList([]starlark.Value{starlark.String("shared")})
+		d := starlark.NewDict(1)
+		d.SetKey(starlark.String("k"), shared)
+		top := starlark.NewList([]starlark.Value{h})
+		for i := 0; i < after; i++ {
+			top.Append(shared)
+			top.Append(d)
+		}
+		vs = append(vs, top, starlark.Tuple{h, shared, shared})
+	}
 	// self-referential big list
 	self := starlark.NewList(nil)
 	for i := 0; i < 1200; i++ {
